@@ -272,7 +272,44 @@ func runC04(c *Ctx, phase string) {
 	c.Floor("validate_lists_with_case_twins", 1000)
 	c.Floor("validate_long_lists", 1000)
 	c.Floor("satisfies_long_lists", 1000)
+	c.Floor("big_strings", 10)
+	c.Floor("validate_very_long_lists", 4)
 
+	// large inputs: the three entry points must agree on them as on small ones
+	{
+		for bi, b := range bigStrings(c.U, gen.NewRand(c.Seed, 0xC04B)) {
+			if !c.Mine(bi) {
+				continue
+			}
+			judgeC04(c, C04Case{Kind: "extract", Expr: ev.QS(b.S)}, nil)
+			judgeC04(c, C04Case{Kind: "satisfies", Expr: ev.QS(b.S), List: []ev.QS{"MIT", "ISC"}, Compound: []bool{false, false}}, nil)
+			judgeC04(c, C04Case{Kind: "satisfies", Expr: "MIT", List: []ev.QS{"ISC", ev.QS(b.S)}, Compound: []bool{false, b.Compound}}, nil)
+			judgeC04(c, C04Case{Kind: "validate", List: []ev.QS{"MIT", ev.QS(b.S), "FOO", ev.QS(b.S)}}, nil)
+			c.Inc("big_strings")
+		}
+		// long ValidateLicenses lists with many distinct invalid entries: exact order and multiplicity
+		r := gen.NewRand(c.Seed, 0xC04C)
+		for ni, n := range []int{512, 777, 2000, 3001} {
+			if !c.Mine(ni + 5) {
+				continue
+			}
+			list := make([]string, n)
+			for j := range list {
+				switch {
+				case j%4 == 1:
+					list[j] = fmt.Sprintf("unknown-%d", r.Intn(n/3))
+				case j%9 == 2:
+					list[j] = "MIT AND"
+				default:
+					list[j] = c.U.ActPlain[r.Intn(len(c.U.ActPlain))]
+				}
+			}
+			for rep := 0; rep < 2; rep++ {
+				judgeC04(c, C04Case{Kind: "validate", List: ev.QSs(list)}, nil)
+			}
+			c.Inc("validate_very_long_lists")
+		}
+	}
 	pool := buildPool(c, nPool)
 	var valid, invalid, singles, compounds []int
 	for i, p := range pool {
@@ -309,7 +346,7 @@ func runC04(c *Ctx, phase string) {
 		if r.Chance(1, 3) {
 			// ValidateLicenses on a list with repeats
 			n := r.Intn(13)
-			if r.Chance(1, 8) {
+			if r.Chance(1, 20) {
 				n = 13 + r.Intn(140) // long lists: chunked / parallel / indexed implementations have thresholds and remainders
 				c.Inc("validate_long_lists")
 			}
@@ -365,7 +402,7 @@ func runC04(c *Ctx, phase string) {
 		n := r.Intn(9)
 		if r.Chance(1, 12) {
 			n = 0
-		} else if r.Chance(1, 10) {
+		} else if r.Chance(1, 25) {
 			n = 9 + r.Intn(120)
 			c.Inc("satisfies_long_lists")
 		}
